@@ -373,7 +373,7 @@ TIMEOUTS = {k: 600 for k in SUBS}
 
 # sub-spaces re-executed under other interpreter configurations (mc.core.CONFIGS): {configuration: {sub-space: stride}}
 # quick tier: every stride-th planned case, thorough tier: all planned cases
-CONFIG_PASSES = {'x64': {'mean': 16, 'clip': 6, 'sum': 6}}
+CONFIG_PASSES = {'x64': {'mean': 16, 'clip': 6, 'sum': 6}, 'x64_late': {'mean': 64, 'clip': 24}}
 
 
 def plan(ctx):
